@@ -20,7 +20,21 @@
                                                                            detached task, which gives it up when it has run
    zbus/src/proxy/mod.rs
      ProxyInnerStatic { conn: Connection, .. }                             a Proxy (all its clones together) is one strong reference
+     ProxyInner { property_cache: Option<OnceLock<(Arc<PropertiesCache>, Task<()>)>>, .. }
+                                                                           the proxy OWNS the task that populates the cache and keeps
+                                                                           it in sync (started by build() with CacheProperties::Yes, or
+                                                                           by the first get_property / receive_property_changed of a
+                                                                           lazy proxy).  While it waits for the GetAll reply (CInit) the
+                                                                           task's future holds an internal PropertiesProxy, the
+                                                                           PropertiesChanged stream and the pending call's stream: 3
+                                                                           references; afterwards (CRun) the PropertiesChanged stream: 1.
+                                                                           MODELLED FACT the correspondence checks: dropping the proxy
+                                                                           drops the Task, which cancels it; the executor drops the
+                                                                           future (LReap) and with it everything the cache started
+     blocking::Proxy { conn: blocking::Connection, azync: Option<Proxy> }  two references
      SignalStream { stream: Join<MessageStream, Option<MessageStream>>, .. }   (unique-name destination: one rule stream)
+     AsyncDrop for MessageStream / SignalStream (after fix 90a1ccff: receiver first, then remove_match awaited inline): the reference
+                                                                           is given up when async_drop returns, no task is queued
    zbus/src/object_server/mod.rs
      dispatch_method_call_try: if with_spawn { let connection = connection.clone(); executor.spawn(async move { .. call .. reply .. }).detach() }
                                                                            a method handler in flight is one strong reference,
@@ -29,7 +43,15 @@
    fails afterwards), event_listener (listen before notify => the listener completes), the executor drops cancelled tasks. *)
 From ZV Require Import Base.Bytes Base.Res.
 
-Inductive hkind := HConn | HStreamAll | HStreamRule (r : nat) | HProxy | HSignals.
+(* the property cache of a proxy: none, lazy and not started, waiting for the GetAll reply, populated and listening *)
+Inductive cache := CNo | CIdle | CInit | CRun.
+Inductive hkind := HConn | HStreamAll | HStreamRule (r : nat) | HProxy (c : cache) | HSignals | HBlocking.
+
+(* strong references the cache task's future holds *)
+Definition cw (c : cache) : nat := match c with CInit => 3 | CRun => 1 | _ => 0 end.
+Definition started (c : cache) : bool := match c with CInit | CRun => true | _ => false end.
+(* strong references a handle holds, directly or through what it owns *)
+Definition weight (k : hkind) : nat := match k with HProxy c => 1 + cw c | HBlocking => 2 | _ => 1 end.
 
 Inductive event :=
   | EReply (k : nat)      (* the reply of handler k was written *)
@@ -41,6 +63,7 @@ Inductive event :=
 Record st := {
   handles : list (nat * hkind);   (* live user handles *)
   removers : nat;                 (* detached "remove match" tasks that have not run yet *)
+  zombies : list nat;             (* cancelled cache tasks the executor has not dropped yet: the references each still holds *)
   queued : list nat;              (* method calls read from the socket, not yet picked up by the dispatch task *)
   inflight : list nat;            (* method handlers running *)
   waiters : list nat;             (* graceful_shutdown futures waiting for drop_event *)
@@ -50,10 +73,12 @@ Record st := {
 }.
 
 Definition init : st :=
-  {| handles := [(0, HConn)]; removers := 0; queued := []; inflight := []; waiters := []; alive := true; reader := true; events := [] |}.
+  {| handles := [(0, HConn)]; removers := 0; zombies := []; queued := []; inflight := []; waiters := []; alive := true; reader := true; events := [] |}.
 
 (* Arc::strong_count *)
-Definition strong (s : st) : nat := length (handles s) + removers s + length (inflight s).
+Fixpoint sumw (l : list (nat * hkind)) : nat := match l with [] => 0 | (_, k) :: r => weight k + sumw r end.
+Fixpoint sumn (l : list nat) : nat := match l with [] => 0 | x :: r => x + sumn r end.
+Definition strong (s : st) : nat := sumw (handles s) + removers s + sumn (zombies s) + length (inflight s).
 
 Fixpoint lookup (n : nat) (l : list (nat * hkind)) : option hkind :=
   match l with [] => None | (m, k) :: r => if Nat.eqb n m then Some k else lookup n r end.
@@ -66,19 +91,29 @@ Definition mem_n (n : nat) (l : list nat) : bool := existsb (Nat.eqb n) l.
 (* dropping this kind of handle queues a remove-match task that inherits the reference *)
 Definition leaves_remover (k : hkind) : bool := match k with HStreamRule _ | HSignals => true | _ => false end.
 
+Fixpoint set_h (n : nat) (k : hkind) (l : list (nat * hkind)) : list (nat * hkind) :=
+  match l with [] => [] | (m, k') :: r => if Nat.eqb n m then (m, k) :: r else (m, k') :: set_h n k r end.
+
 Definition upd (s : st) (h : list (nat * hkind)) (rm : nat) (q fl w : list nat) (ev : list event) : st :=
-  {| handles := h; removers := rm; queued := q; inflight := fl; waiters := w; alive := alive s; reader := reader s; events := ev |}.
+  {| handles := h; removers := rm; zombies := zombies s; queued := q; inflight := fl; waiters := w; alive := alive s; reader := reader s; events := ev |}.
+Definition upd_z (s : st) (h : list (nat * hkind)) (rm : nat) (z : list nat) : st :=
+  {| handles := h; removers := rm; zombies := z; queued := queued s; inflight := inflight s; waiters := waiters s; alive := alive s;
+     reader := reader s; events := events s |}.
 
 (* Arc: the last strong reference is gone => ConnectionInner::drop *)
 Definition settle (s : st) : st :=
   if alive s && Nat.eqb (strong s) 0
-  then {| handles := handles s; removers := removers s; queued := queued s; inflight := inflight s; waiters := waiters s;
+  then {| handles := handles s; removers := removers s; zombies := zombies s; queued := queued s; inflight := inflight s; waiters := waiters s;
           alive := false; reader := reader s; events := events s ++ [EClosed] |}
   else s.
 
 Inductive label :=
   | LNew (n src : nat) (k : hkind)   (* a new handle made from the connection of handle src *)
   | LDrop (n : nat)
+  | LAsyncDrop (n : nat)             (* AsyncDrop::async_drop of a stream / signal stream: the match is removed inline *)
+  | LCacheStart (n : nat)            (* the lazy cache of proxy n starts: subscription + GetAll call *)
+  | LCacheReady (n : nat)            (* the GetAll reply arrived: the cache is populated and keeps listening *)
+  | LReap                            (* the executor drops a cancelled cache task, with everything its future holds *)
   | LRemover                         (* a queued remove-match task runs and ends *)
   | LCallIn (k : nat)                (* the reader hands method call k to the object server's queue *)
   | LDispatch                        (* the dispatch task takes the next call: upgrade, spawn the handler *)
@@ -91,7 +126,8 @@ Inductive label :=
 Definition source_ok (src : option hkind) (k : hkind) : bool :=
   match src, k with
   | Some HSignals, _ => false                 (* a SignalStream does not give access to its connection *)
-  | Some HProxy, HSignals => true
+  | Some HBlocking, _ => false
+  | Some (HProxy _), HSignals => true
   | Some _, HSignals => false
   | Some _, _ => true
   | None, _ => false
@@ -105,9 +141,32 @@ Definition step (l : label) (s : st) : option st :=
       else None
   | LDrop n =>
       match lookup n (handles s) with
+      | Some (HProxy c) =>      (* the proxy owned the cache task: cancelled, still to be dropped by the executor *)
+          Some (settle (upd_z s (remove_h n (handles s)) (removers s) (if started c then zombies s ++ [cw c] else zombies s)))
       | Some k => Some (settle (upd s (remove_h n (handles s)) (if leaves_remover k then S (removers s) else removers s)
                                       (queued s) (inflight s) (waiters s) (events s)))
       | None => None
+      end
+  | LAsyncDrop n =>
+      match lookup n (handles s) with
+      | Some k => if leaves_remover k || match k with HStreamAll => true | _ => false end
+                  then Some (settle (upd_z s (remove_h n (handles s)) (removers s) (zombies s))) else None
+      | None => None
+      end
+  | LCacheStart n =>
+      match lookup n (handles s) with
+      | Some (HProxy CIdle) => Some (upd_z s (set_h n (HProxy CInit) (handles s)) (removers s) (zombies s))
+      | _ => None
+      end
+  | LCacheReady n =>
+      match lookup n (handles s) with
+      | Some (HProxy CInit) => Some (upd_z s (set_h n (HProxy CRun) (handles s)) (removers s) (zombies s))
+      | _ => None
+      end
+  | LReap =>
+      match zombies s with
+      | w :: z => Some (settle (upd_z s (handles s) (S (removers s)) z))      (* its PropertiesChanged stream queues a remove-match *)
+      | [] => None
       end
   | LRemover =>
       match removers s with
@@ -143,8 +202,8 @@ Definition step (l : label) (s : st) : option st :=
       else None
   | LReaderDrop =>
       if reader s && negb (alive s)
-      then Some {| handles := handles s; removers := removers s; queued := queued s; inflight := inflight s; waiters := waiters s;
-                   alive := false; reader := false; events := events s ++ [EReadDrop] |}
+      then Some {| handles := handles s; removers := removers s; zombies := zombies s; queued := queued s; inflight := inflight s;
+                   waiters := waiters s; alive := false; reader := false; events := events s ++ [EReadDrop] |}
       else None
   end.
 
